@@ -196,8 +196,6 @@ impl Method for HighestLowestDelta {
 //@end
 }
 
-//@export-end
-
 // C08: exact constancy on a constant stream
 pub proof fn highest_const_step(pre: Highest, v: R, post: Highest, out: R)
 	requires pre.inv(), pre.window.view() =~= konst(pre.window.view().len(), v), Highest::step(&pre, &v, &post, &out)
@@ -217,5 +215,6 @@ pub proof fn delta_const_step(pre: HighestLowestDelta, v: R, post: HighestLowest
 {
 	assert(post.window.view() =~= konst(pre.window.view().len(), v));
 }
+//@export-end
 } // verus!
 fn main() {}
